@@ -37,6 +37,7 @@ func vAuthReq(auth string, has bool) (*http.Request, *middlewareapi.RequestScope
 	return req, scope
 }
 
+// the basic-auth loader puts a session in scope only for credentials the htpasswd validator accepted
 // verif: unwind=8 strlen=10 concretize=4 also=C19
 func vh_C01_load_basic() {
 	auth := ndString("authorization")
@@ -85,6 +86,7 @@ func vh_C01_load_basic_converse() {
 
 var vJwtRe = regexp.MustCompile(jwtRegexFormat)
 
+// the bearer loader puts a session in scope only for a well-formed token one of the verifiers accepted, and that token's session
 // verif: unwind=8 strlen=24 concretize=4 also=C19,C04
 func vh_C01_load_jwt() {
 	auth := ndString("authorization")
